@@ -35,10 +35,12 @@ const (
 	bPanicAfterSet // unmarshal: sets the value, then panics; marshal: same as bPanicString
 	bNothing       // no error and an empty result: (nil, nil) / value left untouched
 	bNilReceiver   // marshal on a nil *P
+	bErrorEmptied  // unmarshal: error, and the receiver reset to an empty but non-nil value (slice and map kinds)
+	bEmptied       // unmarshal: no error, receiver set to an empty but non-nil value (slice and map kinds)
 	numBehaviours
 )
 
-var behNames = [...]string{"right", "wrong", "error", "error+data", "panic(string)", "panic(error)", "panic-after-set", "nothing", "nil-receiver"}
+var behNames = [...]string{"right", "wrong", "error", "error+data", "panic(string)", "panic(error)", "panic-after-set", "nothing", "nil-receiver", "error+emptied", "emptied"}
 
 // hook behaviours
 const (
@@ -76,10 +78,12 @@ const (
 	pSuffixEmpty  // ErrorHasSuffix(""): met by every error
 	pCustomAccept // caller-written predicate: returns err != nil, never reports anything itself
 	pCustomReject // caller-written predicate: always returns false, never reports anything itself
+	pCustomAcceptNil // caller-written predicate that also accepts "no error": always returns true
+	pMatchDotAll  // "^<beginning>.+$": met by a one-line text, unmet by a recovered panic (its text has newlines, '.' does not cross them)
 	numPreds
 )
 
-var predNames = [...]string{"none", "AnyError", "Error(met)", "Error(unmet)", "Error(near-miss)", "HasPrefix(met)", "HasPrefix(unmet)", "HasPrefix(near-miss)", "HasSuffix(met)", "HasSuffix(unmet)", "HasSuffix(near-miss)", "Match(met)", "Match(unmet)", "Match(near-miss)", "Match(invalid)", "Error(text+1)", "Error(empty)", "HasPrefix(text+1)", "HasPrefix(empty)", "HasSuffix(1+text)", "HasSuffix(empty)", "custom(silent, accepts any error)", "custom(silent, rejects)"}
+var predNames = [...]string{"none", "AnyError", "Error(met)", "Error(unmet)", "Error(near-miss)", "HasPrefix(met)", "HasPrefix(unmet)", "HasPrefix(near-miss)", "HasSuffix(met)", "HasSuffix(unmet)", "HasSuffix(near-miss)", "Match(met)", "Match(unmet)", "Match(near-miss)", "Match(invalid)", "Error(text+1)", "Error(empty)", "HasPrefix(text+1)", "HasPrefix(empty)", "HasSuffix(1+text)", "HasSuffix(empty)", "custom(silent, accepts any error)", "custom(silent, rejects)", "custom(silent, accepts nil too)", "Match(.+$ must not cross newlines)"}
 
 // caseSpec scripts one case: what its collaborators will do.
 type caseSpec struct {
@@ -94,6 +98,8 @@ type caseSpec struct {
 	adjust     bool // the case is listed with a wrong expectation and its (passing) Before hook puts it right
 	wrongKind  int  // how a "wrong" result differs from the right one
 	wildcard   bool // unmarshal, asymmetric TypeHelper: the listed value leaves the payload open
+	nilExpect  bool // unmarshal, slice and map kinds: the case lists a nil value (an empty non-nil result differs from it)
+	other      bool // interface-typed T: the value of this case is a *Q instead of a *P
 }
 
 // ways a wrong result differs
@@ -146,6 +152,12 @@ func (c caseSpec) sig() string {
 	if c.wildcard {
 		nv += ",wildcard-payload"
 	}
+	if c.nilExpect {
+		nv += ",listed-value=nil"
+	}
+	if c.other {
+		nv += ",concrete-type=*Q"
+	}
 	return fmt.Sprintf("constraint=%d,beh=%s,before=%s,after=%s,pred=%s%s", c.constraint, behNames[c.beh], hookNames[c.before], hookNames[c.after], predNames[c.pred], nv)
 }
 
@@ -153,7 +165,7 @@ func (c caseSpec) sig() string {
 // call does not fail. For a panic the text continues with a stack trace.
 func (c caseSpec) errHead(i int) string {
 	switch c.beh {
-	case bError, bErrorWithData:
+	case bError, bErrorWithData, bErrorEmptied:
 		return fmt.Sprintf("scripted failure %d (100%%)", i)
 	case bPanicString, bPanicAfterSet:
 		return fmt.Sprintf("panic: boom %d%% %%s /a%%2Fb\n", i)
@@ -256,12 +268,34 @@ func (r *recorder) FailNow() {
 type V struct {
 	Case    int // case index + 1
 	Payload string
+	Mode    string // configuration a prototype-cloning TypeHelper carries over from the listed value
 }
 
 // P has pointer receivers throughout (T is *P).
 type P struct {
 	Case    int
 	Payload string
+}
+
+// Q is a second pointer-receiver type: an interface-typed T may hold a *P in one case and a
+// *Q in the next.
+type Q struct {
+	Case    int
+	Payload string
+	IsQ     bool
+}
+
+func (p *Q) MarshalText() ([]byte, error)   { return doMarshal(p.Case) }
+func (p *Q) MarshalBinary() ([]byte, error) { return doMarshal(p.Case) }
+func (p *Q) MarshalJSON() ([]byte, error)   { return doMarshal(p.Case) }
+func (p *Q) UnmarshalText(b []byte) error {
+	return doUnmarshal(b, func(c int, s string) { *p = Q{c, s, true} })
+}
+func (p *Q) UnmarshalBinary(b []byte) error {
+	return doUnmarshal(b, func(c int, s string) { *p = Q{c, s, true} })
+}
+func (p *Q) UnmarshalJSON(b []byte) error {
+	return doUnmarshal(b, func(c int, s string) { *p = Q{c, s, true} })
 }
 
 // OnlyM implements only the marshal side, OnlyU only the unmarshal side, None neither.
@@ -315,6 +349,10 @@ func doMarshal(caseNo int) ([]byte, error) {
 
 // doUnmarshal is the body of every scripted Unmarshal* method; set stores (case, payload)
 // into the receiver.
+// emptied, when non-nil, resets the receiver of the call in progress to an empty non-nil value
+// (set by the slice- and map-kinded types around doUnmarshal).
+var emptied func()
+
 func doUnmarshal(data []byte, set func(caseNo int, payload string)) error {
 	l := cur
 	i := -1
@@ -352,6 +390,16 @@ func doUnmarshal(data []byte, set func(caseNo int, payload string)) error {
 		panic(fmt.Sprintf("boom %d%% %%s /a%%2Fb", i))
 	case bNothing:
 		return nil
+	case bErrorEmptied:
+		if emptied != nil {
+			emptied()
+		}
+		return errors.New(s.errHead(i))
+	case bEmptied:
+		if emptied != nil {
+			emptied()
+		}
+		return nil
 	}
 	return errUnscripted
 }
@@ -360,13 +408,13 @@ func (v V) MarshalText() ([]byte, error)   { return doMarshal(v.Case) }
 func (v V) MarshalBinary() ([]byte, error) { return doMarshal(v.Case) }
 func (v V) MarshalJSON() ([]byte, error)   { return doMarshal(v.Case) }
 func (v *V) UnmarshalText(b []byte) error {
-	return doUnmarshal(b, func(c int, p string) { *v = V{c, p} })
+	return doUnmarshal(b, func(c int, p string) { v.Case, v.Payload = c, p })
 }
 func (v *V) UnmarshalBinary(b []byte) error {
-	return doUnmarshal(b, func(c int, p string) { *v = V{c, p} })
+	return doUnmarshal(b, func(c int, p string) { v.Case, v.Payload = c, p })
 }
 func (v *V) UnmarshalJSON(b []byte) error {
-	return doUnmarshal(b, func(c int, p string) { *v = V{c, p} })
+	return doUnmarshal(b, func(c int, p string) { v.Case, v.Payload = c, p })
 }
 
 func (p *P) MarshalText() ([]byte, error)   { return doMarshal(p.Case) }
@@ -434,12 +482,18 @@ func (s Bytes) MarshalText() ([]byte, error)   { return doMarshal(kindCase(strin
 func (s Bytes) MarshalBinary() ([]byte, error) { return doMarshal(kindCase(string(s))) }
 func (s Bytes) MarshalJSON() ([]byte, error)   { return doMarshal(kindCase(string(s))) }
 func (s *Bytes) UnmarshalText(b []byte) error {
+	emptied = func() { *s = Bytes{} }
+	defer func() { emptied = nil }()
 	return doUnmarshal(b, func(c int, p string) { *s = Bytes(kindValue(c, p)) })
 }
 func (s *Bytes) UnmarshalBinary(b []byte) error {
+	emptied = func() { *s = Bytes{} }
+	defer func() { emptied = nil }()
 	return doUnmarshal(b, func(c int, p string) { *s = Bytes(kindValue(c, p)) })
 }
 func (s *Bytes) UnmarshalJSON(b []byte) error {
+	emptied = func() { *s = Bytes{} }
+	defer func() { emptied = nil }()
 	return doUnmarshal(b, func(c int, p string) { *s = Bytes(kindValue(c, p)) })
 }
 
@@ -465,9 +519,21 @@ func (m *Map) set(c int, p string) {
 	}
 	(*m)["c"] = kindValue(c, p)
 }
-func (m *Map) UnmarshalText(b []byte) error   { return doUnmarshal(b, m.set) }
-func (m *Map) UnmarshalBinary(b []byte) error { return doUnmarshal(b, m.set) }
-func (m *Map) UnmarshalJSON(b []byte) error   { return doUnmarshal(b, m.set) }
+func (m *Map) UnmarshalText(b []byte) error {
+	emptied = func() { *m = Map{} }
+	defer func() { emptied = nil }()
+	return doUnmarshal(b, m.set)
+}
+func (m *Map) UnmarshalBinary(b []byte) error {
+	emptied = func() { *m = Map{} }
+	defer func() { emptied = nil }()
+	return doUnmarshal(b, m.set)
+}
+func (m *Map) UnmarshalJSON(b []byte) error {
+	emptied = func() { *m = Map{} }
+	defer func() { emptied = nil }()
+	return doUnmarshal(b, m.set)
+}
 
 func numCase(n Num) int {
 	if n >= 1000 {
@@ -490,3 +556,29 @@ func (n *Num) set(c int, p string) {
 func (n *Num) UnmarshalText(b []byte) error   { return doUnmarshal(b, n.set) }
 func (n *Num) UnmarshalBinary(b []byte) error { return doUnmarshal(b, n.set) }
 func (n *Num) UnmarshalJSON(b []byte) error   { return doUnmarshal(b, n.set) }
+
+// Byte is a uint8-kinded type under test (the kind of the README's own example type): the
+// case number itself, a wrong result is 100 + case, its zero value is 0.
+type Byte uint8
+
+func byteCase(n Byte) int {
+	if n >= 100 {
+		return int(n) - 100
+	}
+	return int(n)
+}
+
+func (n Byte) MarshalText() ([]byte, error)   { return doMarshal(byteCase(n)) }
+func (n Byte) MarshalBinary() ([]byte, error) { return doMarshal(byteCase(n)) }
+func (n Byte) MarshalJSON() ([]byte, error)   { return doMarshal(byteCase(n)) }
+func (n *Byte) set(c int, p string) {
+	l := cur
+	if l != nil && c >= 1 && c <= len(l.specs) && p == l.specs[c-1].payload {
+		*n = Byte(c)
+		return
+	}
+	*n = Byte(100 + c)
+}
+func (n *Byte) UnmarshalText(b []byte) error   { return doUnmarshal(b, n.set) }
+func (n *Byte) UnmarshalBinary(b []byte) error { return doUnmarshal(b, n.set) }
+func (n *Byte) UnmarshalJSON(b []byte) error   { return doUnmarshal(b, n.set) }
